@@ -496,23 +496,35 @@ def _claim_probes():
                 out.append(({claim: v}, {}, now, leeway))
             out.append(({claim: now + 1 if claim == "exp" else now - 1}, {claim: {"value": 424242}}, now, leeway))      # in the window, but not the requested value
             out.append(({claim: now + 1 if claim == "exp" else now - 1}, {claim: {"values": [now + 1, now - 1]}}, now, leeway))
-    opts = [{}, {"essential": True}, {"essential": False}, {"value": "a"}, {"values": ["a", "b"]}, {"values": []}, {"allow_blank": True}, {"allow_blank": False},
-            {"allow_blank": None, "value": ""}, {"essential": True, "value": "a"}, {"value": 0}, {"value": "a", "values": ["a", "b"]}, {"value": "b", "values": ["a"]}]
-    vals = ["<absent>", None, "a", "b", "c", "", 0, 1, ["a"]]
+    import itertools as _it
+    opts = []
+    for ab, v, vs, es in _it.product(("<absent>", True, False, None), ("<absent>", "a", "", "ab", 0), ("<absent>", ["a", "b"], ["", "a"], ["ab"], []), ("<absent>", True, False)):
+        o = {}
+        if ab != "<absent>":
+            o["allow_blank"] = ab
+        if v != "<absent>":
+            o["value"] = v
+        if vs != "<absent>":
+            o["values"] = list(vs)
+        if es != "<absent>":
+            o["essential"] = es
+        opts.append(o)
+    vals = ["<absent>", None, "a", "b", "c", "", "ab", 0, 1, ["a"]]
     for o in opts:
         for v in vals:
             out.append(({} if v == "<absent>" else {"x": v}, {"x": dict(o)}, now, 0))
     for v in vals:
         out.append(({} if v == "<absent>" else {"x": v}, {}, now, 0))  # no request at all: ignored
-    for o in ({}, {"value": "a"}, {"values": ["a", "b"]}, {"values": []}, {"value": ""}, {"essential": True}, {"value": "a", "values": ["b"]}, {"allow_blank": False, "value": "a"}):
-        for v in ("a", "c", "", ["a", "x"], ["x"], [], ["c", "b"], "<absent>"):
+    for o in ({}, {"value": "a"}, {"values": ["a", "b"]}, {"values": []}, {"value": ""}, {"essential": True}, {"value": "a", "values": ["b"]}, {"allow_blank": False, "value": "a"},
+              {"value": "ab"}, {"values": ["ab", "zz"]}, {"values": ["b", "a"]}, {"essential": True, "values": ["a"]}):
+        for v in ("a", "c", "", "abc", "ab", ["a", "x"], ["x"], [], ["c", "b"], ["abc"], ["x", "ab"], "<absent>", None):
             out.append(({} if v == "<absent>" else {"aud": v}, {"aud": dict(o)}, now, 0))
     out.append(({"x": "a", "exp": now + 10, "zz": {"k": [1]}, "aud": "me"}, {"x": {"value": "a"}, "aud": {"value": "me"}}, now, 5))
     out.append(({"zz": object}, {}, now, 0))
     return out
 
 
-def _claims_folded(ctx) -> Optional[List[str]]:
+def _claims_folded(ctx) -> Optional[List[Tuple[str, str]]]:
     """Decide R10.1 - R10.6 and R10.8 by partial evaluation: JWTClaimsRegistry(now, leeway, **request).validate(claims) is folded on a grid of
     single-claim probes (the boundaries now-leeway-1, now-leeway+1, now+leeway, now+leeway+1, floats, non-numbers; every request option and
     their combinations; scalar / list audiences) and the outcome compared with the statement's verdict (`_oracle`); exp == now-leeway is left
@@ -523,7 +535,7 @@ def _claims_folded(ctx) -> Optional[List[str]]:
     eng = ctx.eng
     P, F = eng.prog, eng.folder
     R = P.cls(REG)
-    problems: List[str] = []
+    problems: List[Tuple[str, str]] = []
     F.start_trace()
     try:
         # R10.8: the clock
@@ -533,13 +545,18 @@ def _claims_folded(ctx) -> Optional[List[str]]:
         if not (isinstance(nw, ExtVal) and txt in ("int(time.time())", "time.time()")):
             if is_unknown(nw):
                 return None
-            problems.append(f"with no explicit now the registry's clock folds to {txt}, not the current time")
+            problems.append(("R10.8", f"with no explicit now the registry's clock folds to {txt}, not the current time"))
         if d.attrs.get("leeway") != 0:
-            problems.append(f"the default leeway folds to {d.attrs.get('leeway')!r}")
+            problems.append(("R10.8", f"the default leeway folds to {d.attrs.get('leeway')!r}"))
+        init_ = R.lookup("__init__")
+        if init_ is not None:
+            for dflt in list(init_.node.args.defaults) + [k_ for k_ in init_.node.args.kw_defaults if k_ is not None]:
+                if any(isinstance(x_, ast.Call) for x_ in ast.walk(dflt)):
+                    problems.append(("R10.8", f"a parameter default of the registry constructor is computed when the module is imported (`{norm(dflt)}`): the clock is frozen"))
         for nw_, lw_ in ((0, 0), (5, 7)):
             e = F.instantiate(R, [], {"now": nw_, "leeway": lw_})
             if e.attrs.get("now") != nw_ or e.attrs.get("leeway") != lw_ or isinstance(e.attrs.get("now"), bool):
-                problems.append(f"now={nw_}, leeway={lw_} are stored as now={e.attrs.get('now')!r}, leeway={e.attrs.get('leeway')!r}")
+                problems.append(("R10.8", f"now={nw_}, leeway={lw_} are stored as now={e.attrs.get('now')!r}, leeway={e.attrs.get('leeway')!r}"))
         for claims, opts, now, leeway in _claim_probes():
             want = _oracle(claims, opts, now, leeway)
             given = _copy.deepcopy(claims) if "zz" not in claims or claims["zz"] is not object else dict(claims)
@@ -553,9 +570,21 @@ def _claims_folded(ctx) -> Optional[List[str]]:
             except FoldRaise as ex:
                 got = getattr(getattr(ex.exc, "cls", None), "name", None) or getattr(ex, "name", "") or "?"
             if got != want:
-                problems.append(f"claims {claims!r} under the request {opts!r} at now={now}, leeway={leeway}: folds to {got}, the statement says {want}")
+                ck = next(iter(claims), None)
+                if "MissingClaimError" in (got, want):
+                    rid = "R10.4"
+                elif ck in ("exp", "nbf", "iat"):
+                    v_ = claims[ck]
+                    rid = "R10.2" if not isinstance(v_, (int, float)) else ("R10.1" if not opts else "R10.6")
+                    if isinstance(v_, (int, float)) and not opts and "ok" not in (got, want):
+                        rid = "R10.3"
+                elif ck == "aud":
+                    rid = "R10.6"
+                else:
+                    rid = "R10.5" if (ck is not None and ck in opts) else "R10.6"
+                problems.append((rid, f"claims {claims!r} under the request {opts!r} at now={now}, leeway={leeway}: folds to {got}, the statement says {want}"))
             if repr(given) != before:
-                problems.append(f"validate() modifies the claims {claims!r}")
+                problems.append(("R10.7", f"validate() modifies the claims {claims!r}"))
     except AnalysisError:
         return None
     finally:
@@ -566,8 +595,15 @@ def _claims_folded(ctx) -> Optional[List[str]]:
 def run(ctx) -> None:
     folded = ctx.guard(_claims_folded)
     if folded is not None:
-        ctx.check(not folded, "R10.1", None, None, "claims validation folded on the probe grid (R10.1 - R10.6, R10.8)",
-                  "; ".join(folded[:3]) if folded else "", f"{len(_claim_probes())} single-claim probes agree with the statement's verdict", construct="claims validation verdicts")
+        by_rule: Dict[str, List[str]] = {}
+        for rid, txt in folded:
+            by_rule.setdefault(rid, []).append(txt)
+        for rid in ("R10.1", "R10.2", "R10.3", "R10.4", "R10.5", "R10.6", "R10.8"):
+            ps = by_rule.get(rid, [])
+            ctx.check(not ps, rid, None, None, f"claims validation folded on the probe grid ({rid})", "; ".join(ps[:2]) + (f" (+{len(ps) - 2} more probes)" if len(ps) > 2 else ""),
+                      "every probe of this clause agrees with the statement's verdict", construct=f"claims validation verdicts ({rid})")
+        for txt in by_rule.get("R10.7", []):
+            ctx.fail("R10.7", None, None, txt, construct="claims mutated by validate")
         ctx.count("R10.1/probes", len(_claim_probes()), 200, "claims probes")
     else:
         ctx.guard(r10_1_2_3)
